@@ -30,6 +30,10 @@ class Unsupported(Exception):
     pass
 
 
+class _PromoteAcc(Exception):
+    pass
+
+
 # --------------------------------------------------------------------------
 # symbolic values
 # --------------------------------------------------------------------------
@@ -96,7 +100,7 @@ class Kernel:
         path = os.path.join(self.src_root, self.spec['file'])
         self.source = open(path).read()
         tree = ast.parse(self.source)
-        cls = self.spec.get('cls')
+        cls = self.spec.get('src_cls') or self.spec.get('cls')    # src_cls: class that defines an inherited method
         body = tree.body
         if cls:
             for n in body:
@@ -122,7 +126,8 @@ class Kernel:
 
     def coq_type(self, kind):
         return {'num': 'T O', 'int': 'Z', 'bool': 'bool', 'str': 'string',
-                'list': 'list (T O)', 'list2': 'list (list (T O))', 'intlist': 'list Z'}[kind]
+                'list': 'list (T O)', 'list2': 'list (list (T O))', 'intlist': 'list Z',
+                'fun': 'T O -> T O'}[kind]
 
     def bind_kind_ok(self, kind):
         return kind in ('num', 'int', 'bool', 'str', 'list', 'list2', 'intlist', 'idx2')
@@ -231,6 +236,9 @@ class Kernel:
             raise Unsupported('heterogeneous list')
         if isinstance(node, ast.IfExp):
             c = self.expr(node.test, env)
+            if c.kind == 'bool' and c.coq in ('true', 'false'):
+                # statically decided test (None-test declared in `static`): only the live branch exists
+                return self.expr(node.body if c.coq == 'true' else node.orelse, env)
             a = self.expr(node.body, env)
             b = self.expr(node.orelse, env)
             return self.ite(self.truthy(c), a, b)
@@ -381,6 +389,11 @@ class Kernel:
         if idx.kind == 'int':
             if base.kind == 'num':
                 return base                      # x[0] on a 1-element array
+            if base.kind == 'list' and getattr(self, 'idx_checked', False):
+                # inside `try: ... except IndexError: raise`: an out-of-range read makes the kernel raise
+                n = self.fresh('ci')
+                self.pending_lets.append(('?' + n, app('nthZ', base.coq, idx.coq)))
+                return V('num', n)
             if base.kind == 'list':
                 return V('num', app('getZ', base.coq, idx.coq))
             if base.kind == 'list2':
@@ -392,6 +405,39 @@ class Kernel:
                     return base.items[sl.value]
         raise Unsupported(f'subscript {ast.unparse(node)} ({base.kind}[{idx.kind}])')
 
+    def int_dyadic(self, node, env):
+        """int(E) support: E built from int-kinded leaves with + - * and division by a literal power of
+        two is an exact dyadic rational num/den in binary64 (for |values| < 2**52), so Python's int(E)
+        (truncation toward zero) is Z.quot num den.  Returns (num_coq, den:int) or None."""
+        if isinstance(node, ast.BinOp):
+            a = self.int_dyadic(node.left, env)
+            if a is None:
+                return None
+            if isinstance(node.op, ast.Div):
+                r = node.right
+                if isinstance(r, ast.Constant) and isinstance(r.value, int) and not isinstance(r.value, bool) \
+                        and r.value > 0 and (r.value & (r.value - 1)) == 0:
+                    return (a[0], a[1] * r.value)
+                return None
+            b = self.int_dyadic(node.right, env)
+            if b is None:
+                return None
+            if isinstance(node.op, (ast.Add, ast.Sub)):
+                d = max(a[1], b[1])
+                sym = '+' if isinstance(node.op, ast.Add) else '-'
+                return (f'(({paren(a[0])} * {d // a[1]}) {sym} ({paren(b[0])} * {d // b[1]}))%Z', d)
+            if isinstance(node.op, ast.Mult):
+                return (f'({paren(a[0])} * {paren(b[0])})%Z', a[1] * b[1])
+            return None
+        if isinstance(node, ast.UnaryOp) and isinstance(node.op, ast.USub):
+            a = self.int_dyadic(node.operand, env)
+            return None if a is None else (f'(- {paren(a[0])})%Z', a[1])
+        try:
+            v = self.expr(node, env)
+        except Unsupported:
+            return None
+        return (v.coq, 1) if v.kind == 'int' else None
+
     def call(self, node, env):
         fn = node.func
         dotted = self.dotted_of(fn)
@@ -402,6 +448,13 @@ class Kernel:
             if name in NP_UNARY:
                 v = self.expr(args[0], env)
                 return V('num', app(NP_UNARY[name], self.to_num(v)))
+            if name == 'factorial' and len(args) == 1:
+                # math.factorial(k) on an int: prod(1..k); Python raises for k < 0 (the model gives 1:
+                # callers must keep k >= 0, the correspondence check compares on such inputs)
+                v = self.expr(args[0], env)
+                if v.kind == 'int':
+                    return V('int', f'(fold_left Z.mul (rangeZ 1%Z ({paren(v.coq)} + 1)%Z) 1%Z)')
+                raise Unsupported('factorial of non-int')
             if name in ('radians', 'deg2rad'):
                 v = self.expr(args[0], env)
                 return V('num', app('div', app('mul', self.to_num(v), 'pi_'), 'ofZ 180%Z'))
@@ -445,12 +498,23 @@ class Kernel:
                 v = self.expr(args[0], env)
                 if v.kind == 'list':
                     return V('num', app('sum_list', v.coq))
+            if name == 'polyval' and len(args) == 2:
+                pv = self.expr(args[0], env)
+                if pv.kind == 'list':
+                    return V('num', app('polyval_', pv.coq, self.to_num(self.expr(args[1], env))))
+            if name == 'interp' and len(args) == 3:
+                x = self.to_num(self.expr(args[0], env)); xp = self.expr(args[1], env); fp = self.expr(args[2], env)
+                if xp.kind == 'list' and fp.kind == 'list':
+                    return V('num', app('interp_', x, xp.coq, fp.coq))
             raise Unsupported('numpy call ' + dotted)
         # ---- builtins ----
         if isinstance(fn, ast.Name):
             if fn.id in ('float', 'int') and len(args) == 1:
                 v = self.expr(args[0], env)
                 if fn.id == 'int' and v.kind == 'num':
+                    q = self.int_dyadic(args[0], env)
+                    if q is not None:
+                        return V('int', f'(Z.quot {paren(q[0])} {q[1]}%Z)') if q[1] != 1 else V('int', q[0])
                     raise Unsupported('int() of float')
                 return v
             if fn.id == 'abs':
@@ -472,6 +536,11 @@ class Kernel:
         # ---- x.copy() etc ----
         if isinstance(fn, ast.Attribute) and fn.attr in IDENTITY_CALLS and not args:
             return self.expr(fn.value, env)
+        # ---- calls of a function-valued input (`self.n(w)`): the function is an input of the kernel ----
+        if dotted in self.spec.get('fun_calls', ()) and len(args) == 1:
+            self.types.setdefault(dotted, 'fun')
+            f = self.get_input(dotted)
+            return V('num', app(f.coq, self.to_num(self.expr(args[0], env))))
         # ---- opaque calls: the result is an input of the kernel ----
         opaque = self.spec.get('opaque_calls', {})
         if dotted in opaque:
@@ -577,7 +646,7 @@ class Kernel:
     def flush(self):
         lets = self.pending_lets
         self.pending_lets = []
-        return ''.join(f'let {n} := {e} in\n' for n, e in lets)
+        return ''.join((f'TRY {n[1:]} <- {e} IN\n' if n.startswith('?') else f'let {n} := {e} in\n') for n, e in lets)
 
     def has_exit(self, stmts):
         for s in stmts:
@@ -788,6 +857,33 @@ class Kernel:
             return pre + f'let {pat} := (if {c} then (\n{ta}) else (\n{tb})) in\n' + cont(env)
         if isinstance(s, ast.For):
             return self.for_loop(s, env, cont)
+        if isinstance(s, ast.Try):
+            # try: body  except (IndexError|ValueError): raise ...   (handlers must re-raise)
+            if s.orelse or s.finalbody or not s.handlers:
+                raise Unsupported('try with else/finally')
+            caught = set()
+            for h in s.handlers:
+                if not (isinstance(h.type, ast.Name) and h.type.id in ('IndexError', 'ValueError')):
+                    raise Unsupported('except clause ' + ast.unparse(h.type) if h.type else 'bare except')
+                if not (h.body and isinstance(h.body[-1], ast.Raise) and
+                        all(isinstance(x, ast.Assign) for x in h.body[:-1])):
+                    raise Unsupported('except handler that does not re-raise')
+                caught.add(h.type.id)
+            self.can_raise = True
+            saved = getattr(self, 'idx_checked', False)
+            inside = saved or ('IndexError' in caught)
+
+            def k_after(e):
+                self.idx_checked = saved
+                try:
+                    return cont(e)
+                finally:
+                    self.idx_checked = inside
+            self.idx_checked = inside
+            try:
+                return self.block(list(s.body), env, k_after)
+            finally:
+                self.idx_checked = saved
         raise Unsupported('statement ' + type(s).__name__)
 
     def expr_or_raising(self, node, env):
@@ -878,8 +974,10 @@ class Kernel:
                 space = app('rangeZ', '0%Z', a[0].coq)
             elif len(a) == 2:
                 space = app('rangeZ', a[0].coq, a[1].coq)
+            elif len(a) == 3:
+                space = app('rangeStepZ', a[0].coq, a[1].coq, a[2].coq)
             else:
-                raise Unsupported('range with step')
+                raise Unsupported('range arity')
             ivar = self.fresh(s.target.id)
             pat = ivar
             loopvars = {s.target.id: V('int', ivar)}
@@ -914,6 +1012,8 @@ class Kernel:
                 continue                          # loop-local temporary
             if v0.kind in ('tuple', 'obj', 'none'):
                 raise Unsupported('loop accumulator kind ' + v0.kind)
+            if v0.kind == 'int' and (id(s), n) in getattr(self, '_promote_acc', ()):
+                v0 = V('num', self.to_num(v0))
             accs.append((n, v0))
         if not accs:
             return pre + cont(env)
@@ -930,11 +1030,20 @@ class Kernel:
                 if v.kind != v0.kind:
                     if v0.kind == 'num' and v.kind == 'int':
                         v = V('num', self.to_num(v))
+                    elif v0.kind == 'int' and v.kind == 'num':
+                        raise _PromoteAcc(n)          # `value = 0; value += <float>`: redo with a num accumulator
                     else:
                         raise Unsupported(f'accumulator {n} changes kind {v0.kind}->{v.kind}')
                 vals.append(v.coq)
-            return self.flush() + (vals[0] if len(vals) == 1 else '(' + ', '.join(vals) + ')')
-        body = self.block(list(s.body), benv, kk)
+            packed = (vals[0] if len(vals) == 1 else '(' + ', '.join(vals) + ')')
+            return self.flush() + (f'Some {paren(packed)}' if optmode else packed)
+        optmode = getattr(self, 'idx_checked', False)      # body may raise IndexError: accumulator is an option
+        try:
+            body = self.block(list(s.body), benv, kk)
+        except _PromoteAcc as pa:
+            self._promote_acc = getattr(self, '_promote_acc', set()) | {(id(s), pa.args[0])}
+            self.pending_lets = []
+            return pre + self.for_loop(s, env, cont)
         accpat = accvars[0] if len(accvars) == 1 else "'(" + ', '.join(accvars) + ')'
         init = accs[0][1].coq if len(accs) == 1 else '(' + ', '.join(v0.coq for _, v0 in accs) + ')'
         newnames = [self.fresh(n) for n, _ in accs]
@@ -942,6 +1051,10 @@ class Kernel:
         env = dict(env)
         for (n, v0), nn in zip(accs, newnames):
             env[n] = V(v0.kind, nn)
+        if optmode:
+            loop = (f'fold_left (fun oacc {pat} => match oacc with None => None | Some {accpat.lstrip(chr(39))} =>\n{body}\nend) '
+                    f'{paren(space)} (Some {paren(init)})')
+            return pre + f'match {loop} with None => None | Some {newpat.lstrip(chr(39))} =>\n' + cont(env) + '\nend'
         loop = f'fold_left (fun {accpat} {pat} =>\n{body}) {paren(space)} {paren(init)}'
         return pre + f'let {newpat} := {loop} in\n' + cont(env)
 
@@ -1015,10 +1128,13 @@ def translate_module(modname, specs, src_root, registry=None):
     """returns (coq_text, manifests, failures)"""
     registry = registry if registry is not None else {}
     out = [HEADER]
+    req = sorted({r for spec in specs for r in spec.get('requires', ())})
+    if req:
+        out.append('From OV Require Import ' + ' '.join(req) + '.\n')
     manifests = []
     failures = []
     for spec in specs:
-        k = Kernel(spec, registry, src_root)
+        k = spec.get('kclass', Kernel)(spec, registry, src_root)   # per-property translator extensions (e.g. py2coq_cx)
         registry[spec['name']] = k
         k.coq_text = None
         try:
